@@ -46,7 +46,7 @@ def shards(tier):
 def required_counters(tier):
     return {'judged:exact-pixel': 5000, 'judged:exact-range': 5000, 'judged:full-pixel': 500, 'judged:empty-pixel': 500, 'judged:mask-sum': 50,
             'judged:convergence': 200, 'lane:circle-mask': 10, 'lane:ellipse-mask': 10, 'lane:circle-window': 10, 'lane:ellipse-window': 10,
-            'lane:nice-circle': 5, 'lane:nice-ellipse': 5, 'big-circle-rows': 2000, 'result-edited-then-requested-again': 20}
+            'lane:nice-circle': 5, 'lane:nice-ellipse': 5, 'big-circle-rows': 2000, 'exact-with-subpixels-1': 20, 'result-edited-then-requested-again': 20}
 
 
 # ---------------------------------------------------------------------------
@@ -93,8 +93,13 @@ def _seg_disk(ax, ay, bx, by, r):
             mx, my = ax + tm * dx, ay + tm * dy
             first = mx * mx + my * my <= r2
             flags = [first, not first] if not (in0 and in1) else [True, True]
+    elif in0 == in1:
+        flags = [in0]
     else:
-        flags = [in0 and in1]
+        # no crossing strictly inside the segment although the end points fall on different sides: one end point lies ON the
+        # circle (up to rounding, either way) and the crossing coincides with it - the other end point decides for the whole segment
+        d0, d1 = abs(ax * ax + ay * ay - r2), abs(bx * bx + by * by - r2)
+        flags = [in1 if d1 > d0 else in0]
     area = 0.0
     for (t0, t1), inside in zip(zip(ts[:-1], ts[1:]), flags):
         if t1 <= t0:
@@ -183,8 +188,12 @@ def generate(rng, tier, shard, nshards):
         elif r < 0.30:
             a = gen.logu(rng, 0.05, 30)
             ratio = gen.logu(rng, 1, 30) if rng.random() < 0.8 else 1.0 + rng.choice([-1, 1]) * 10.0 ** rng.uniform(-7, -3)     # nearly circular too
-            yield {'lane': 'ellipse-mask', 'a': a, 'b': a / ratio, 'theta': rng.uniform(-10, 10),
-                   'cx': rng.uniform(-50, 50), 'cy': rng.uniform(-50, 50), 'unit': rng.choice(['rad', 'deg']), 'rs': rs}
+            theta, unit = rng.uniform(-10, 10), rng.choice(['rad', 'deg'])
+            if rng.random() < 0.3:
+                # exactly axis-aligned (the default orientation and its quarter turns), given in degrees so that it is exact
+                theta, unit = math.radians(90.0 * rng.randint(-4, 7)), 'deg'
+            yield {'lane': 'ellipse-mask', 'a': a, 'b': a / ratio, 'theta': theta,
+                   'cx': rng.uniform(-50, 50), 'cy': rng.uniform(-50, 50), 'unit': unit, 'rs': rs}
         elif r < 0.45:
             yield {'lane': 'circle-window', 'r': gen.logu(rng, 1e-3, 1e3), 'phi': rng.uniform(0, 2 * math.pi), 'fx': rng.random(), 'fy': rng.random(),
                    'nx': rng.randint(1, 8), 'ny': rng.randint(1, 8), 'rs': rs}
@@ -201,7 +210,7 @@ def generate(rng, tier, shard, nshards):
                    'cy': rng.choice([0, 0.25, 0.5, 3, 3.25, 3.5, -7.5]), 'rs': rs}
         else:
             cls = rng.choice(['CirclePixelRegion', 'EllipsePixelRegion', 'RectanglePixelRegion', 'PolygonPixelRegion', 'RegularPolygonPixelRegion'])
-            yield {'lane': 'convergence', 'cls': cls, 'size': gen.logu(rng, 1.5, 25), 'cx': rng.uniform(-20, 20), 'cy': rng.uniform(-20, 20),
+            yield {'lane': 'convergence', 'cls': cls, 'size': gen.logu(rng, 1.5, 25) if rng.random() < 0.7 else gen.logu(rng, 0.02, 1.5), 'cx': rng.uniform(-20, 20), 'cy': rng.uniform(-20, 20),
                    'angle': gen.angle_spec(rng, 'uniform'), 'rs': rs}
 
 
@@ -278,6 +287,24 @@ def _far_outside(x0, y0, x1, y1, margin_fn, band):
     return True
 
 
+def _deg(theta):
+    d = math.degrees(theta)
+    return float(round(d)) if abs(d - round(d)) < 1e-9 and round(d) % 90 == 0 else d
+
+
+def exact_mask(reg, rs, obs):
+    """mode='exact' in the spellings the signature allows: `subpixels` is documented as ignored outside 'subpixels' mode."""
+    k = rs % 6
+    if k == 0:
+        obs.count('exact-with-subpixels-1')
+        return reg.to_mask(mode='exact', subpixels=1)
+    if k == 1:
+        return reg.to_mask('exact', (rs // 6) % 9 + 1)
+    if k == 2:
+        return reg.to_mask(subpixels=2, mode='exact')
+    return reg.to_mask(mode='exact')
+
+
 def run_big_circle(case, obs):
     from regions import PixCoord, CirclePixelRegion
     r, cx, cy = case['r'], case['cx'], case['cy']
@@ -343,7 +370,7 @@ def run_case(case, obs):
             if np.asarray(first.data).flags.writeable:
                 np.asarray(first.data)[...] = 0.5
             obs.count('result-edited-then-requested-again')
-        m = reg.to_mask(mode='exact')
+        m = exact_mask(reg, case['rs'], obs)
         bb = m.bbox
         xe = [bb.ixmin - 0.5 + i - cx for i in range(bb.shape[1] + 1)]
         ye = [bb.iymin - 0.5 + j - cy for j in range(bb.shape[0] + 1)]
@@ -360,7 +387,7 @@ def run_case(case, obs):
         if lane == 'nice-ellipse':
             ang = case['theta_deg'] * u.deg
         else:
-            ang = case['theta'] * u.rad if case['unit'] == 'rad' else math.degrees(case['theta']) * u.deg
+            ang = case['theta'] * u.rad if case['unit'] == 'rad' else _deg(case['theta']) * u.deg
         th = float(ang.to_value(u.rad))
         cx, cy = case['cx'], case['cy']
         reg = EllipsePixelRegion(PixCoord(cx, cy), 2 * a, 2 * b, ang)
@@ -369,7 +396,7 @@ def run_case(case, obs):
             if np.asarray(first.data).flags.writeable:
                 np.asarray(first.data)[...] = 0.5
             obs.count('result-edited-then-requested-again')
-        m = reg.to_mask(mode='exact')
+        m = exact_mask(reg, case['rs'], obs)
         bb = m.bbox
         xe = [bb.ixmin - 0.5 + i - cx for i in range(bb.shape[1] + 1)]
         ye = [bb.iymin - 0.5 + j - cy for j in range(bb.shape[0] + 1)]
